@@ -16,7 +16,12 @@
 // boundaries, wall-clock steps), the goroutine schedule (concurrent requests
 // and policy updates as tasks), the licence (installed object) and the auth
 // middleware (a stub that puts the token id of a request header into the
-// request locals, as auth.RequireRead would).
+// request locals, as auth.RequireRead would), and process restarts: a
+// "restart" step ends the serving process (graceful Stop or process death)
+// and builds a new Manager + routes on the same SQLite database, so the
+// per-token policies the operator configured are the ones that were
+// persisted. In-memory counters do not survive a restart; the oracle
+// therefore never counts admits across a restart (weaker than the text).
 package main
 
 import (
@@ -67,7 +72,7 @@ type Action struct {
 // Step is one step of the driver; steps run one after the other, a "conc"
 // step runs its tasks concurrently and waits for all of them.
 type Step struct {
-	Kind  string     `json:"kind"` // req | conc | update | create | delete | usage | align | advance | wallstep
+	Kind  string     `json:"kind"` // req | conc | update | create | delete | usage | align | advance | wallstep | restart
 	Token int64      `json:"token,omitempty"`
 	N     int        `json:"n,omitempty"`
 	GapNs int64      `json:"gap_ns,omitempty"`
@@ -77,6 +82,7 @@ type Step struct {
 	Unit  string     `json:"unit,omitempty"`   // align: sec | min | hour | day
 	OffNs int64      `json:"off_ns,omitempty"` // align: offset from the boundary (negative = before)
 	DNs   int64      `json:"d_ns,omitempty"`   // advance / wallstep
+	Crash bool       `json:"crash,omitempty"`  // restart: process death instead of a graceful Stop
 }
 
 type C28Plan struct {
@@ -140,6 +146,11 @@ func genC28(r *simrt.Rand, tier string) any {
 	}
 	wallSteps := r.Chance(25)
 	deletes := r.Chance(25)
+	restarts := r.Chance(35)
+	if restarts && r.Chance(60) {
+		// restarts matter most when several tokens have persisted policies
+		p.Tokens = all[:2+r.Intn(2)]
+	}
 	exists := map[int64]bool{}
 	tok := func() int64 { return p.Tokens[r.Intn(len(p.Tokens))] }
 	lim := func() *Limits {
@@ -151,7 +162,7 @@ func genC28(r *simrt.Rand, tier string) any {
 	}
 	// initial policies
 	for _, t := range p.Tokens {
-		if r.Chance(75) || (p.Defaults == Limits{}) {
+		if r.Chance(75) || restarts || (p.Defaults == Limits{}) {
 			p.Steps = append(p.Steps, Step{Kind: "create", Token: t, Lim: lim()})
 			exists[t] = true
 		}
@@ -194,6 +205,23 @@ func genC28(r *simrt.Rand, tier string) any {
 	}
 	reqBudget := 70
 	for i := 0; i < nsteps; i++ {
+		if restarts && r.Chance(15) {
+			// a restart, then (usually) every token in turn sends a burst
+			// against the limits that were loaded from the store
+			p.Steps = append(p.Steps, Step{Kind: "restart", Crash: r.Chance(40)})
+			if r.Chance(70) {
+				for _, ti := range r.Perm(len(p.Tokens)) {
+					n := 2 + r.Intn(10)
+					if n > reqBudget {
+						n = 1
+					}
+					reqBudget -= n
+					p.Steps = append(p.Steps, Step{Kind: "req", Token: p.Tokens[ti], N: n, Probe: r.Chance(15),
+						GapNs: int64(pick(r, []int{0, 0, 0, 1_000_000, 100_000_000}))})
+				}
+			}
+			continue
+		}
 		switch k := r.Intn(100); {
 		case k < 36:
 			n := 1 + r.Intn(12)
@@ -253,6 +281,7 @@ type reqRec struct {
 	ws, we int64 // wall clock (unix ns) of the node around the call
 	kind   string
 	conc   bool
+	epoch  int // process incarnation (number of restarts before the request)
 	peek   governance.VerifInternals
 }
 
@@ -290,6 +319,9 @@ type world struct {
 	usages   []usageRec
 	probes   []probeRec
 	wallStep []int64 // mono times of wall-clock steps
+	restarts []int64 // mono times at which a restart completed
+	epoch    int
+	db       *sql.DB
 	fail     string
 }
 
@@ -343,7 +375,7 @@ func classify(status int, body []byte) string {
 
 // query issues one query request for token (must run on a task of w.node).
 func (w *world) query(token int64, conc bool) string {
-	rec := reqRec{token: token, conc: conc, s: simrt.SimNow(), ws: simrt.Now().UnixNano()}
+	rec := reqRec{token: token, conc: conc, epoch: w.epoch, s: simrt.SimNow(), ws: simrt.Now().UnixNano()}
 	st, body := w.call("POST", "/api/v1/query", token, `{"sql":""}`)
 	rec.e, rec.we = simrt.SimNow(), simrt.Now().UnixNano()
 	rec.kind = classify(st, body)
@@ -510,7 +542,52 @@ func (w *world) runStep(i int, st Step) {
 	case "wallstep":
 		simrt.StepWall(w.node, time.Duration(st.DNs))
 		w.wallStep = append(w.wallStep, simrt.SimNow())
+	case "restart":
+		// the serving process ends (gracefully or by process death) and a new
+		// one starts on the same database; no request is in flight here
+		if st.Crash {
+			simrt.Crash(w.node)
+			simrt.Revive(w.node)
+		} else if w.p.Start {
+			w.onNode("stop", func() { _ = w.mgr.Stop() })
+		}
+		w.mgr, w.handler = nil, nil
+		w.epoch++
+		w.onNode("boot", w.boot)
+		w.restarts = append(w.restarts, simrt.SimNow())
+		simrt.Event("RESTART crash=%v", st.Crash)
+		simrt.Count("probe.restart", 1)
 	}
+}
+
+// boot builds the serving process: a Manager on the (persistent) database
+// and the real routes in front of it.
+func (w *world) boot() {
+	p := w.p
+	gc := &config.GovernanceConfig{Enabled: true, DefaultRateLimitPerMin: p.Defaults.RPM, DefaultRateLimitPerHour: p.Defaults.RPH,
+		DefaultMaxQueriesPerHour: p.Defaults.QH, DefaultMaxQueriesPerDay: p.Defaults.QD}
+	m, err := governance.NewManager(&governance.ManagerConfig{DB: w.db, Config: gc, Logger: quiet})
+	if err != nil {
+		w.harnessFail("NewManager: %v", err)
+		return
+	}
+	w.mgr = m
+	if p.Start {
+		m.Start()
+	}
+	lc := license.VerifLicensedClient(license.FeatureQueryGovernance)
+	app := fiber.New(fiber.Config{DisableStartupMessage: true})
+	// stand-in for the auth middleware: identifies the caller
+	app.Use(func(c *fiber.Ctx) error {
+		if v := c.Get("X-Verif-Token"); v != "" {
+			id, _ := strconv.ParseInt(v, 10, 64)
+			c.Locals("token_info", &auth.TokenInfo{ID: id, Name: "t" + v, Enabled: true})
+		}
+		return c.Next()
+	})
+	api.VerifGovernanceQueryHandler(m, lc, quiet).RegisterRoutes(app)
+	api.NewGovernanceHandler(m, nil, lc, quiet).RegisterRoutes(app)
+	w.handler = app.Handler()
 }
 
 func runC28(planAny any, cfg simrt.Config) *simkit.Outcome {
@@ -524,41 +601,16 @@ func runC28(planAny any, cfg simrt.Config) *simkit.Outcome {
 	db.SetMaxOpenConns(1)
 	db.SetMaxIdleConns(1)
 	defer db.Close()
-	w := &world{p: p, exists: map[int64]bool{}}
+	w := &world{p: p, db: db, exists: map[int64]bool{}}
 	res := simrt.Run(cfg, func() {
 		w.node = simrt.NodeOf("n1")
-		w.onNode("boot", func() {
-			gc := &config.GovernanceConfig{Enabled: true, DefaultRateLimitPerMin: p.Defaults.RPM, DefaultRateLimitPerHour: p.Defaults.RPH,
-				DefaultMaxQueriesPerHour: p.Defaults.QH, DefaultMaxQueriesPerDay: p.Defaults.QD}
-			m, err := governance.NewManager(&governance.ManagerConfig{DB: db, Config: gc, Logger: quiet})
-			if err != nil {
-				w.harnessFail("NewManager: %v", err)
-				return
-			}
-			w.mgr = m
-			if p.Start {
-				m.Start()
-			}
-			lc := license.VerifLicensedClient(license.FeatureQueryGovernance)
-			app := fiber.New(fiber.Config{DisableStartupMessage: true})
-			// stand-in for the auth middleware: identifies the caller
-			app.Use(func(c *fiber.Ctx) error {
-				if v := c.Get("X-Verif-Token"); v != "" {
-					id, _ := strconv.ParseInt(v, 10, 64)
-					c.Locals("token_info", &auth.TokenInfo{ID: id, Name: "t" + v, Enabled: true})
-				}
-				return c.Next()
-			})
-			api.VerifGovernanceQueryHandler(m, lc, quiet).RegisterRoutes(app)
-			api.NewGovernanceHandler(m, nil, lc, quiet).RegisterRoutes(app)
-			w.handler = app.Handler()
-		})
+		w.onNode("boot", w.boot)
 		if w.mgr == nil {
 			return
 		}
 		for i, st := range p.Steps {
 			w.runStep(i, st)
-			if w.fail != "" {
+			if w.fail != "" || w.mgr == nil {
 				return
 			}
 		}
@@ -656,6 +708,10 @@ func shrinkC28(planAny any) []any {
 					}
 				}
 			}
+		case "restart":
+			if st.Crash {
+				with(func(q *C28Plan) { q.Steps[i].Crash = false })
+			}
 		case "create", "update":
 			if st.Lim != nil {
 				l := *st.Lim
@@ -716,6 +772,8 @@ func descC28(planAny any) any {
 			s = append(s, fmt.Sprintf("advance(%s)", time.Duration(st.DNs)))
 		case "wallstep":
 			s = append(s, fmt.Sprintf("wallstep(%s)", time.Duration(st.DNs)))
+		case "restart":
+			s = append(s, fmt.Sprintf("restart(crash=%v)", st.Crash))
 		}
 	}
 	return map[string]any{"defaults": p.Defaults, "tokens": p.Tokens, "cleanup_goroutine": p.Start, "steps": s}
